@@ -14,6 +14,7 @@ import (
 	"fmt"
 	"os"
 	"path/filepath"
+	"regexp"
 	"runtime"
 	"strings"
 	"testing"
@@ -477,6 +478,12 @@ func checkCase(c Case) error {
 	}
 	r.Close()
 
+	// locality: whether a subtree is excluded is decided by the element and its ancestors. Taking the id attribute
+	// away from one element therefore changes nothing about the text outside that element's subtree, in any mode.
+	if err := checkLocality(c, base); err != nil {
+		return err
+	}
+
 	// entry point 2: OpenReader fed one byte at a time, one reader, strictest mode first
 	if _, err := checkReader("OpenReader(1-byte reads)", func() (*htmldoc.Reader, error) {
 		return htmldoc.OpenReader(iotest.OneByteReader(bytes.NewReader(src)))
@@ -579,6 +586,81 @@ func checkCase(c Case) error {
 // scratchBase prefers a memory-backed directory for the per-case files: three
 // small files are written and removed per case, which on a busy disk costs
 // more than everything else the check does.
+var tokenRE = regexp.MustCompile(`q[0-9]+z`)
+
+// checkLocality: see checkCase.
+func checkLocality(c Case, base *answers) error {
+	// the first element (document order) that carries an id, and the tokens of its subtree
+	var target *htmlw.Node
+	var find func(n *htmlw.Node)
+	find = func(n *htmlw.Node) {
+		if target != nil {
+			return
+		}
+		if _, ok := n.Get("id"); ok && n.Tag != "" {
+			target = n
+			return
+		}
+		for _, k := range n.Kids {
+			find(k)
+		}
+	}
+	find(c.Doc.Body)
+	if target == nil {
+		return nil
+	}
+	inside := map[string]bool{}
+	var collect func(n *htmlw.Node)
+	collect = func(n *htmlw.Node) {
+		if n.Tok != "" {
+			inside[n.Tok] = true
+		}
+		for _, k := range n.Kids {
+			collect(k)
+		}
+	}
+	collect(target)
+	saved := target.Attr
+	var without []htmlw.Attr
+	for _, a := range saved {
+		if a.K != "id" {
+			without = append(without, a)
+		}
+	}
+	target.Attr = without
+	src2, _, err := render(c.Doc)
+	target.Attr = saved
+	if err != nil {
+		return nil // the variant has no confirmed spelling: not judged
+	}
+	if c.EmptySpans > 0 {
+		src2 = append(append([]byte{}, src2...), []byte(strings.Repeat("<span/>", c.EmptySpans))...)
+	}
+	outside := func(text string) []string {
+		var out []string
+		for _, tk := range tokenRE.FindAllString(text, -1) {
+			if !inside[tk] {
+				out = append(out, tk)
+			}
+		}
+		return out
+	}
+	for m := 0; m < 4; m++ {
+		r, err := htmldoc.OpenReader(bytes.NewReader(src2))
+		if err != nil {
+			return fmt.Errorf("OpenReader (the document without the id of <%s>): %v", target.Tag, err)
+		}
+		got, _ := r.TextWithOptions(htmldoc.ExtractOptions{NavigationExclusion: modeVal[m]})
+		r.Close()
+		a, b := outside(base.text[m]), outside(got)
+		if fmt.Sprint(a) != fmt.Sprint(b) {
+			id, _ := target.Get("id")
+			return fmt.Errorf("mode %s: removing id=%q from one <%s> changes the text outside that element: with the id %v, without %v", modeName[m], id, target.Tag, a, b)
+		}
+	}
+	return nil
+}
+
 func scratchBase() string {
 	if st, err := os.Stat("/dev/shm"); err == nil && st.IsDir() {
 		return "/dev/shm"
